@@ -723,8 +723,17 @@ class BasisRun:
         elif kind == 'lstsq':
             a = obj[op['src']]; Ma, sa = ref[op['src']]
             n = Ma.shape[1]
-            if n == 0 or Ma.shape[0] == 0 or np.linalg.matrix_rank(Ma) < n:
-                self.count('lstsq:not-applicable (no or dependent modes)')
+            if n == 0 or Ma.shape[0] == 0:
+                self.count('lstsq:not-applicable (no modes or no points)')
+                return
+            if np.linalg.matrix_rank(Ma) < n:
+                # dependent modes: coefficients_for is not compared (any minimiser is acceptable), but the model has
+                # to decide "dependent" exactly here (lstsq_answers_iff_independent): the rule by which the harness
+                # selects the comparable cases (NumPy's rank of the exact small dyadic matrix) is the model's own
+                self.count('lstsq:dependent modes (model must answer err rank)')
+                if not op.get('nomodel'):
+                    y = Ma @ dec_arr(op['c']) if 'c' in op else dec_arr(op['y'])
+                    self.emit('C14 lstsq %s %s' % (op['src'], fmt_vec(y)), 'err rank')
                 return
             if np.linalg.cond(Ma) > COND_MAX:
                 self.count('lstsq:skipped-illconditioned')
